@@ -375,8 +375,8 @@ def _deep_clone(e):
     return new
 
 
-_EXPANDED: Dict[int, ast.AST] = {}
-_LOOPFORM: Dict[int, FunctionInfo] = {}
+_EXPANDED: Dict[int, tuple] = {}
+_LOOPFORM: Dict[int, tuple] = {}
 
 
 def loop_form(fn: FunctionInfo) -> FunctionInfo:
@@ -389,8 +389,8 @@ def loop_form(fn: FunctionInfo) -> FunctionInfo:
     For the rules that recognise an algorithm by the loops that fill its tables.  Parent links are set on
     the copy; the control-flow graph of the original must not be consulted through the copy."""
     key = id(fn.node)
-    if key in _LOOPFORM:
-        return _LOOPFORM[key]
+    if key in _LOOPFORM and _LOOPFORM[key][0] is fn.node:
+        return _LOOPFORM[key][1]
     node = _deep_clone(fn.node)
 
     def comps_of(v):
@@ -457,7 +457,7 @@ def loop_form(fn: FunctionInfo) -> FunctionInfo:
     import dataclasses as _dc
 
     out = _dc.replace(fn, node=node)
-    _LOOPFORM[key] = out
+    _LOOPFORM[key] = (fn.node, out)
     return out
 
 
@@ -468,8 +468,8 @@ def expanded_function(fn: FunctionInfo) -> ast.AST:
     is bound exactly once, to an attribute / constant-subscript chain (or a tuple of such, unpacked), whose
     root names are themselves bound at most once (parameters, loop variables)."""
     key = id(fn.node)
-    if key in _EXPANDED:
-        return _EXPANDED[key]
+    if key in _EXPANDED and _EXPANDED[key][0] is fn.node:
+        return _EXPANDED[key][1]
     node = _deep_clone(fn.node)
     stores: Dict[str, int] = {}
     for n in ast.walk(node):
@@ -543,5 +543,5 @@ def expanded_function(fn: FunctionInfo) -> ast.AST:
         for nm in repl:
             stores[nm] = 0
     A.set_parents(node)
-    _EXPANDED[key] = node
+    _EXPANDED[key] = (fn.node, node)  # the original is kept alive: its id cannot be re-used by another tree
     return node
